@@ -474,9 +474,33 @@ func replayObligation(v *Verifier, res *FuncResult, o *Obligation, prop, rp, ver
 	scriptPath := strings.TrimSuffix(rp, ".json") + ".smt2"
 	os.WriteFile(scriptPath, []byte(o.Script), 0o644)
 	rec["script"] = scriptPath
-	found := false
 	defer func() { writeJSON(rp, rec) }()
 	if o.Status != "failed" {
+		// The solvers gave no model (quantified hypotheses).  For a function without
+		// preconditions, look for a *candidate* input instead: drop the quantified
+		// hypotheses, ask for a model of what is left, and let the replay driver's
+		// independent oracle decide on the real code whether it is a failing input.
+		if c := v.cs.Contracts[res.Key]; c != nil && len(c.Requires) == 0 && o.Script != "" && o.Kind != "frame" {
+			var keep []string
+			for _, line := range strings.Split(o.Script, "\n") {
+				if strings.HasPrefix(line, "(assert ") && (strings.Contains(line, "(forall ") || strings.Contains(line, "(exists ")) && !strings.HasPrefix(line, "(assert (not ") {
+					continue
+				}
+				keep = append(keep, line)
+			}
+			weak := strings.Join(keep, "\n")
+			r := runSolver(context.Background(), solvers[0], weak, 8)
+			if r.verdict == "sat" {
+				o2 := *o
+				o2.Status, o2.Script, o2.Output, o2.Model = "failed", weak, r.output, r.output
+				rec["candidate_search"] = "model of the obligation with its quantified hypotheses dropped; confirmed or rejected by the replay oracle on the real code"
+				if args, _ := reifyParams(res, &o2); args != nil {
+					if ok := runReplayDriver(v, res, &o2, args, rp, verifDir, rec); ok {
+						return true
+					}
+				}
+			}
+		}
 		rec["replay"] = "the solver returned no counterexample (" + o.Status + "); the obligation was discharged on the unchanged tree and is not any more"
 		return false
 	}
@@ -485,6 +509,13 @@ func replayObligation(v *Verifier, res *FuncResult, o *Obligation, prop, rp, ver
 		rec["replay"] = "counterexample not replayed: " + why
 		return false
 	}
+	return runReplayDriver(v, res, o, args, rp, verifDir, rec)
+}
+
+// runReplayDriver runs the package's replay driver on concrete arguments and
+// reports whether the real code was seen to fail.
+func runReplayDriver(v *Verifier, res *FuncResult, o *Obligation, args any, rp, verifDir string, rec map[string]any) bool {
+	found := false
 	rec["inputs"] = args
 	fn := v.funcs[res.Key]
 	if fn == nil || fn.Pkg == nil {
